@@ -537,6 +537,17 @@ func run(cfg propCfg, tier string, seed int64) int {
 	cov["shards"] = tc.Shards
 	cov["budget"] = map[string]interface{}{"rapid_checks_per_shard": tc.Checks, "shards": tc.Shards}
 	cov["known_findings_reported"] = knownLines
+	cov["inconclusive"] = inconclusive
+	if len(notes) > 0 {
+		var ns []string
+		for _, n := range notes {
+			if len(n) > 3000 {
+				n = n[:3000]
+			}
+			ns = append(ns, n)
+		}
+		cov["notes"] = ns
+	}
 	ev := evidence{PropertyID: cfg.ID, Tier: tier, Seed: seed, Level: cfg.Level, Coverage: cov,
 		Assumptions: assumptions, WallS: time.Since(start).Seconds(), Violations: len(failures) + fuzzViol}
 	if ev.Assumptions == nil {
